@@ -32,6 +32,8 @@ RULE = ("cases = (stage outcomes: syntax error | validation error | ambiguous/un
         "(all outcome kinds x configurations x small trees x ALL schedules). distinct non-trivial = distinct canonical case "
         "with at least one hook event beyond query start/end")
 ASSUMPTIONS = [
+    "ResolverError is raised by field resolvers; a ResolverError raised during value completion (resolve_type, serialize) is covered "
+    "by one named probe only (finding N2: Executor then fires on_field_end twice)",
     "requests whose processing raises out of process_graphql_query (subscription operation given to execute, RuntimeError in "
     "value completion, non-ResolverError exceptions of resolvers) produce no outcome and are not quantified over",
     "middlewares are plain synchronous callables mw(next, root, ctx, info, **args) that call next exactly once (what the docstring of apply_middlewares documents)",
@@ -934,7 +936,45 @@ def corpus_cases():
     return out
 
 
+
+def probe_completion_resolver_error(ctx):
+    """Named probe (finding N2): a ResolverError raised while COMPLETING the value (resolve_type of an abstract type)
+    instead of inside the resolver. `Executor.resolve_field` runs `complete` (on_field_end) and then `fail` (on_field_end)."""
+    from py_gql import process_graphql_query
+    from py_gql.exc import ResolverError
+    from py_gql.execution import Executor, Instrumentation
+    from py_gql.schema import Field, Int, ObjectType, Schema, UnionType
+    log = []
+
+    class Rec(Instrumentation):
+        def on_field_start(self, root, context, info):
+            log.append(("+", tuple(info.path)))
+
+        def on_field_end(self, root, context, info):
+            log.append(("-", tuple(info.path)))
+
+    def resolve_type(value, context, info):
+        raise ResolverError("cannot resolve type")
+    A = ObjectType("A", [Field("x", Int)])
+    U = UnionType("U", [A], resolve_type=resolve_type)
+    Q = ObjectType("Query", [Field("u", U, resolver=lambda *a, **k: {"x": 1})])
+    schema = Schema(Q, types=[A])
+    ctx.count()
+    try:
+        process_graphql_query(schema, "{ u { ... on A { x } } }", instrumentation=Rec(), executor_cls=Executor)
+    except Exception:  # noqa  (an escaping exception produces no outcome: outside the statement)
+        return True
+    ends = log.count(("-", ("u",)))
+    if ends != 1:
+        ctx.fail("field-end-twice:completion-raises-ResolverError",
+                 "field u: %d end hooks when resolve_type raises ResolverError under Executor" % ends,
+                 {"probe": "completion-resolver-error", "log": [list(map(str, e)) for e in log]})
+        return False
+    return True
+
+
 def run(ctx):
+    probe_completion_resolver_error(ctx)
     cases = corpus_cases() + exhaustive_cases()
     ctx.extra["exhaustive_block_cases"] = len(cases)
     check_cases(ctx, cases)
@@ -962,6 +1002,8 @@ def _cleanup(ctx):
 
 
 def replay(ctx, data):
+    if data.get("input", {}).get("probe") == "completion-resolver-error":
+        return probe_completion_resolver_error(ctx)
     case = data.get("input", {}).get("case")
     if case is None:
         return True
